@@ -37,6 +37,7 @@ type TEnv struct {
 	lookup      func(string) (TV, bool)
 	lookupOld   func(string) (TV, bool)
 	visitedOf   func(h Heap) string
+	loopEntry   Heap
 	cur, old    Heap
 	results     []TV
 	resultNames []string
@@ -565,13 +566,13 @@ func (env *TEnv) trCall(x *ECall) (TV, error) {
 				t = S("i-val", a.T)
 			}
 		}
-		return TV{S(">", t, env.allocOld), tBool}, nil
-	case "allocated": // existed at entry
+		return TV{S(">", t, env.allocMark()), tBool}, nil
+	case "allocated": // existed at entry (inside a spec function: exists in the state it is evaluated in)
 		a, err := env.tr(x.Args[0])
 		if err != nil {
 			return TV{}, err
 		}
-		return TV{And(S("<", "0", a.T), S("<=", a.T, env.allocOld)), tBool}, nil
+		return TV{And(S("<", "0", a.T), S("<=", a.T, env.allocMark())), tBool}, nil
 	case "back": // contents of the backing array of a slice, as a value
 		a, err := env.tr(x.Args[0])
 		if err != nil {
@@ -643,6 +644,31 @@ func (env *TEnv) trCall(x *ECall) (TV, error) {
 			return TV{}, err
 		}
 		return TV{S("select", env.visitedOf(env.cur), k.T), tBool}, nil
+	case "loopentry": // loopentry(expr): expr in the heap as it was when the loop was entered
+		if env.loopEntry == nil {
+			return TV{}, fmt.Errorf("loopentry() outside a loop clause")
+		}
+		n := *env
+		n.cur = env.loopEntry
+		return n.tr(x.Args[0])
+	case "loopfresh": // loopfresh(x): allocated after the loop was entered
+		if env.loopEntry == nil {
+			return TV{}, fmt.Errorf("loopfresh() outside a loop clause")
+		}
+		a, err := env.tr(x.Args[0])
+		if err != nil {
+			return TV{}, err
+		}
+		t := a.T
+		if a.Ty != nil {
+			switch a.Ty.Underlying().(type) {
+			case *types.Slice:
+				t = S("s-arr", a.T)
+			case *types.Interface:
+				t = S("i-val", a.T)
+			}
+		}
+		return TV{S(">", t, env.loopEntry.Get(vc.allocKey())), tBool}, nil
 	case "arr": // backing array reference of a slice
 		a, err := env.tr(x.Args[0])
 		if err != nil {
@@ -1092,4 +1118,14 @@ func exprTypeText(e Expr) string {
 		return x.Op + exprTypeText(x.X)
 	}
 	return "?"
+}
+
+// allocMark: the allocation watermark `fresh`/`allocated` compare with: the
+// entry state's in a contract clause, the evaluation state's inside a spec
+// function body.
+func (env *TEnv) allocMark() string {
+	if env.allocOld != "" {
+		return env.allocOld
+	}
+	return env.cur.Get(env.vc.allocKey())
 }
